@@ -72,6 +72,7 @@ type vTask struct {
 	Dotenv []string `json:"dotenv"`
 	Alias  string   `json:"alias,omitempty"`  // `aliases: [<alias>]`
 	Method string   `json:"method,omitempty"` // "" | checksum | timestamp: the task has `sources: [src.txt]` (POST layer CHECKSUM / TIMESTAMP)
+	DirVia string   `json:"dir_via,omitempty"` // dir is `{{.VG}}` and VG comes from: call | task | subfile (C11, directory clause)
 }
 
 type vCall struct {
@@ -489,6 +490,9 @@ func toAstVars(defs []vDef) *ast.Vars {
 
 var varsCaseNo int
 
+// the directories a task may end up in, with the suffix the dotenv files of that directory give their values
+var vDotDirs = [][2]string{{".", ""}, {"sub", "@s"}, {"sub/deep", "@d"}, {"alt", "@a"}, {"sub/alt", "@sa"}, {"sub/sub", "@ss"}, {"sub/deep/alt", "@da"}, {"sub/deep/sub", "@ds"}}
+
 type varsLine struct{ cl, il string }
 
 func evalVarsAll(d varsCase) (lines []varsLine) {
@@ -534,7 +538,8 @@ func evalVarsAll(d varsCase) (lines []varsLine) {
 	// a task must get the file of its own directory, whatever another task read before
 	os.MkdirAll(filepath.Join(dir, "sub", "deep"), 0o755)
 	for name, kvs := range d.Dotenvs {
-		for _, where := range [][2]string{{".", ""}, {"sub", "@s"}, {filepath.Join("sub", "deep"), "@d"}} {
+		for _, where := range vDotDirs {
+			os.MkdirAll(filepath.Join(dir, where[0]), 0o755)
 			var b strings.Builder
 			for _, kv := range kvs {
 				fmt.Fprintf(&b, "%s=%s%s\n", kv[0], kv[1], where[1])
@@ -544,7 +549,14 @@ func evalVarsAll(d varsCase) (lines []varsLine) {
 	}
 	for _, where := range []string{".", "sub", filepath.Join("sub", "deep")} {
 		os.WriteFile(filepath.Join(dir, where, "src.txt"), []byte("source\n"), 0o644)
+		for _, v := range []string{"alt", "sub"} { // what a templated dir: may come out as
+			os.MkdirAll(filepath.Join(dir, where, v), 0o755)
+		}
 	}
+	os.MkdirAll(filepath.Join(dir, "home"), 0o755)
+	oldHome := os.Getenv("HOME")
+	os.Setenv("HOME", filepath.Join(dir, "home")) // `dir: '~'`
+	defer os.Setenv("HOME", oldHome)
 	for _, n := range vQuery {
 		os.Unsetenv(n)
 	}
@@ -616,10 +628,10 @@ func evalVarsAll(d varsCase) (lines []varsLine) {
 		vt := d.Tasks[call.Task]
 		ns, level, rawDir, tfile := "", 0, vt.Dir, filepath.Join(dir, "Taskfile.yml")
 		switch {
-		case vt.Sub:
-			ns, level, rawDir, tfile = "inc:", 1, subDir, filepath.Join(subDir, "Taskfile.yml")
+		case vt.Sub: // Tasks.Merge: task.Dir = SmartJoin(include.Dir, task.Dir)
+			ns, level, rawDir, tfile = "inc:", 1, filepath.Join(subDir, vt.Dir), filepath.Join(subDir, "Taskfile.yml")
 		case vt.Leaf:
-			ns, level, rawDir, tfile = "inc:deep:", 2, deepDir, filepath.Join(deepDir, "Taskfile.yml")
+			ns, level, rawDir, tfile = "inc:deep:", 2, filepath.Join(deepDir, vt.Dir), filepath.Join(deepDir, "Taskfile.yml")
 		}
 		name := ns + vt.Name // t.Task
 		asked := name        // call.Task
@@ -720,11 +732,10 @@ func evalVarsAll(d varsCase) (lines []varsLine) {
 				seen := map[string]bool{}
 				dotSuffix := ""
 				if rel, err := filepath.Rel(dir, t.Dir); err == nil {
-					switch filepath.ToSlash(rel) {
-					case "sub":
-						dotSuffix = "@s"
-					case "sub/deep":
-						dotSuffix = "@d"
+					for _, w := range vDotDirs {
+						if filepath.ToSlash(rel) == w[0] {
+							dotSuffix = w[1]
+						}
 					}
 				}
 				for _, f := range vt.Dotenv {
@@ -1021,6 +1032,26 @@ func (c *Ctx) genVarsCase(envdep bool) varsCase {
 		if r.Intn(3) == 0 {
 			t.Dotenv = []string{".env1", ".env2"}[:1+r.Intn(2)]
 		}
+		// C11, directory clause: a dir: that depends on a call / task / included-file variable, or is `~` — the task's sh:
+		// variables must run where its commands run (dotenv files exist in the plain directories only)
+		if len(t.Dotenv) == 0 && r.Intn(4) == 0 {
+			switch k := r.Intn(4); {
+			case k == 0 && !t.Sub && !t.Leaf:
+				t.Dir = "~"
+			case k == 1:
+				t.Dir, t.DirVia = "{{.VG}}", "call"
+			case k == 2:
+				t.Dir, t.DirVia = "{{.VG}}", "task"
+				at := r.Intn(len(t.Vars) + 1) // before or after the task's sh: variables (after: circular, the model mirrors)
+				t.Vars = uniqDefs(append(append(append([]vDef{}, t.Vars[:at]...), vDef{"VG", "lit", "alt"}), t.Vars[at:]...))
+			case k == 3 && (t.Sub || t.Leaf):
+				t.Dir, t.DirVia = "{{.VG}}", "subfile"
+				d.SubVars = uniqDefs(append(d.SubVars, vDef{"VG", "lit", "alt"}))
+			}
+			if t.Dir != "" {
+				c.Hit("dir-clause:" + t.Dir + ":" + t.DirVia)
+			}
+		}
 		d.Tasks = append(d.Tasks, t)
 	}
 	if envdep && r.Intn(2) == 0 {
@@ -1043,6 +1074,9 @@ func (c *Ctx) genVarsCase(envdep bool) varsCase {
 		if d.Tasks[cl.Task].Alias != "" && r.Intn(2) == 0 {
 			cl.ByAlias = true
 			c.Hit("call:by-alias")
+		}
+		if d.Tasks[cl.Task].DirVia == "call" && r.Intn(3) > 0 {
+			cl.Vars = uniqDefs(append(cl.Vars, vDef{"VG", "lit", "alt"}))
 		}
 		for k := strings.Count(d.Tasks[cl.Task].Name, "*"); k > 0; k-- {
 			cl.Wild = append(cl.Wild, fmt.Sprintf("m%d", r.Intn(3)))
